@@ -24,9 +24,9 @@ import (
 type c11CLICase struct {
 	BlobHex  string     `json:"blob_hex"`
 	Sizes    []int      `json:"sizes"`
-	Stores   [][]string `json:"stores"`   // per -s location: members; "dead" = unreachable HTTP store, else a local store name
-	Holds    [][][]int  `json:"holds"`    // per location, per member: chunk numbers it holds
-	Cache    []int      `json:"cache"`    // chunk numbers in the cache; nil with NoCache
+	Stores   [][]string `json:"stores"` // per -s location: members; "dead" = unreachable HTTP store, else a local store name
+	Holds    [][][]int  `json:"holds"`  // per location, per member: chunk numbers it holds
+	Cache    []int      `json:"cache"`  // chunk numbers in the cache; nil with NoCache
 	CacheBad []int      `json:"cache_invalid"`
 	NoCache  bool       `json:"no_cache"`
 	Repair   bool       `json:"repair"`
